@@ -1,0 +1,151 @@
+//go:build verif
+
+package http2
+
+// Verification hooks for property C06 (add-only, build tag verif).
+
+// VerifFlowVM drives the real inflow/outflow types of flow.go:
+// two inflows (0 = connection, 1 = stream) and three outflows
+// (0 = connection, 1 and 2 = streams linked to 0 via setConnFlow).
+type VerifFlowVM struct {
+	in  [2]inflow
+	out [3]outflow
+}
+
+func NewVerifFlowVM() *VerifFlowVM {
+	vm := &VerifFlowVM{}
+	vm.out[1].setConnFlow(&vm.out[0])
+	vm.out[2].setConnFlow(&vm.out[0])
+	return vm
+}
+
+const (
+	VerifOpInInit      = 0 // inflow[idx].init(int32(arg))
+	VerifOpInAdd       = 1 // inflow[idx].add(int(arg)) -> int32
+	VerifOpInTake      = 2 // inflow[idx].take(uint32(arg)) -> bool
+	VerifOpTakeInflows = 3 // takeInflows(&in[0], &in[1], uint32(arg)) -> bool
+	VerifOpOutAdd      = 4 // outflow[idx].add(int32(arg)) -> bool
+	VerifOpOutAvail    = 5 // outflow[idx].available() -> int32
+	VerifOpOutTake     = 6 // outflow[idx].take(int32(arg))
+)
+
+// Do runs one operation; res is the returned value (bools as 0/1), panicked
+// reports a recovered panic of the operation.
+func (vm *VerifFlowVM) Do(kind, idx int, arg int64) (res int64, panicked bool) {
+	defer func() {
+		if e := recover(); e != nil {
+			res, panicked = 0, true
+		}
+	}()
+	b := func(v bool) int64 {
+		if v {
+			return 1
+		}
+		return 0
+	}
+	switch kind {
+	case VerifOpInInit:
+		vm.in[idx].init(int32(arg))
+	case VerifOpInAdd:
+		res = int64(vm.in[idx].add(int(arg)))
+	case VerifOpInTake:
+		res = b(vm.in[idx].take(uint32(arg)))
+	case VerifOpTakeInflows:
+		res = b(takeInflows(&vm.in[0], &vm.in[1], uint32(arg)))
+	case VerifOpOutAdd:
+		res = b(vm.out[idx].add(int32(arg)))
+	case VerifOpOutAvail:
+		res = int64(vm.out[idx].available())
+	case VerifOpOutTake:
+		vm.out[idx].take(int32(arg))
+	}
+	return res, false
+}
+
+// State returns in0.avail, in0.unsent, in1.avail, in1.unsent, out0.n, out1.n, out2.n.
+func (vm *VerifFlowVM) State() [7]int32 {
+	return [7]int32{vm.in[0].avail, vm.in[0].unsent, vm.in[1].avail, vm.in[1].unsent,
+		vm.out[0].n, vm.out[1].n, vm.out[2].n}
+}
+
+// VerifConstants returns the flow-control constants of this package (checked against
+// the gosync-generated Coq table).
+func VerifConstants() map[string]int64 {
+	return map[string]int64{
+		"inflowMinRefresh":            inflowMinRefresh,
+		"transportDefaultConnFlow":    transportDefaultConnFlow,
+		"transportDefaultStreamFlow":  transportDefaultStreamFlow,
+		"initialMaxConcurrentStreams": initialMaxConcurrentStreams,
+		"defaultMaxConcurrentStreams": defaultMaxConcurrentStreams,
+		"initialWindowSize":           initialWindowSize,
+	}
+}
+
+// VerifStreamState is the flow-control bookkeeping of one client stream.
+type VerifStreamState struct {
+	ID           uint32
+	Flow         int32 // send window (outflow.n)
+	InflowAvail  int32
+	InflowUnsent int32
+	Buffered     int // bytes sitting in the response pipe
+}
+
+// VerifConnState is a snapshot of a ClientConn's peer-limit bookkeeping taken under cc.mu.
+type VerifConnState struct {
+	Flow                 int32 // connection send window
+	InflowAvail          int32
+	InflowUnsent         int32
+	MaxFrameSize         uint32
+	MaxConcurrentStreams uint32
+	InitialWindowSize    uint32
+	NextStreamID         uint32
+	PendingRequests      int
+	Closed               bool
+	Closing              bool
+	GoAway               bool
+	SeenSettings         bool
+	WantSettingsAck      bool
+	Streams              []VerifStreamState
+}
+
+func (cc *ClientConn) verifState() VerifConnState {
+	cc.mu.Lock()
+	defer cc.mu.Unlock()
+	st := VerifConnState{
+		Flow: cc.flow.n, InflowAvail: cc.inflow.avail, InflowUnsent: cc.inflow.unsent,
+		MaxFrameSize: cc.maxFrameSize, MaxConcurrentStreams: cc.maxConcurrentStreams,
+		InitialWindowSize: cc.initialWindowSize, NextStreamID: cc.nextStreamID,
+		PendingRequests: cc.pendingRequests, Closed: cc.closed, Closing: cc.closing,
+		GoAway: cc.goAway != nil, SeenSettings: cc.seenSettings, WantSettingsAck: cc.wantSettingsAck,
+	}
+	for _, cs := range cc.streams {
+		st.Streams = append(st.Streams, VerifStreamState{ID: cs.ID, Flow: cs.flow.n,
+			InflowAvail: cs.inflow.avail, InflowUnsent: cs.inflow.unsent, Buffered: cs.bufPipe.Len()})
+	}
+	return st
+}
+
+// VerifConnStates snapshots every connection currently in the transport's pool.
+func (t *Transport) VerifConnStates() []VerifConnState {
+	p, ok := t.connPool().(*clientConnPool)
+	if !ok {
+		return nil
+	}
+	p.mu.Lock()
+	var ccs []*ClientConn
+	seen := map[*ClientConn]bool{}
+	for _, v := range p.conns {
+		for _, cc := range v {
+			if !seen[cc] {
+				seen[cc] = true
+				ccs = append(ccs, cc)
+			}
+		}
+	}
+	p.mu.Unlock()
+	var out []VerifConnState
+	for _, cc := range ccs {
+		out = append(out, cc.verifState())
+	}
+	return out
+}
